@@ -83,4 +83,52 @@ example : ¬ Spec.ColOK 4 [some 5, none, some 6] false
     (by intro x hx; simp at hx; rcases hx with rfl | rfl <;> simp) (by omega) h
   revert this; decide
 
+/-- What the encoder primitives call is `encIntColumnN`: in the general branch an entry equal to the
+    field's all-ones pattern is first turned into a missing entry (`_all_ones_as_missing`, the repair of
+    finding F-C03-1).  On the columns the property quantifies over — raw values `0 .. 2^w − 2` or
+    missing (`Spec.InRange`) — that step changes nothing, so `C02_column_canonical` is a statement about
+    the bits the encoder writes. -/
+theorem C02_column_in_range_unchanged (w : Nat) (allEqual : Bool) (raws : List (Option Nat))
+    (hr : Spec.InRange w raws) (hne : allEqual = false → ∃ x, some x ∈ raws) :
+    encIntColumnN allEqual (raws.map (Option.map Int.ofNat)) w =
+      encIntColumn allEqual (raws.map (Option.map Int.ofNat)) w := by
+  cases allEqual with
+  | true => simp [encIntColumnN]
+  | false =>
+    have hid : allOnesAsMissing w (raws.map (Option.map Int.ofNat)) = raws.map (Option.map Int.ofNat) := by
+      unfold allOnesAsMissing
+      split
+      · rfl
+      · next hw =>
+        rw [List.map_map]
+        apply List.map_congr_left
+        intro r hrm
+        cases r with
+        | none => simp
+        | some x =>
+          have hx := (hr x hrm).2 (by omega)
+          have hp : 0 < 2 ^ w := Nat.two_pow_pos w
+          have : ((x : Nat) : Int) ≠ ((2 ^ w - 1 : Nat) : Int) := by
+            intro h
+            have : x = 2 ^ w - 1 := by exact_mod_cast h
+            omega
+          simp [this]
+    obtain ⟨x, hx⟩ := hne rfl
+    have hall : ((raws.map (Option.map Int.ofNat)).all (· == none)) = false := by
+      rw [Bool.eq_false_iff]
+      intro h
+      rw [List.all_eq_true] at h
+      have := h (some (Int.ofNat x)) (List.mem_map.2 ⟨some x, hx, rfl⟩)
+      simp at this
+    simp only [encIntColumnN, Bool.false_eq_true, if_false, hid, hall]
+
+/-- non-vacuity, and the repaired case itself: all-ones entries next to a missing one give the
+    all-missing column (minimum all ones, width 0), an all-ones entry next to a smaller one is written
+    as a missing increment -/
+example : encIntColumnN false ([some 5, none, some 9].map (Option.map Int.ofNat)) 4 =
+      encIntColumn false ([some 5, none, some 9].map (Option.map Int.ofNat)) 4 ∧
+    encIntColumnN false [some 15, none, some 15] 4 = .ok (ones 4 ++ toBits 6 0) ∧
+    encIntColumnN false [some 15, some 3] 4 = .ok (toBits 4 3 ++ toBits 6 2 ++ ones 2 ++ toBits 2 0) := by
+  decide
+
 end Bufr
